@@ -552,4 +552,242 @@ theorem bezierSubdivide_spec (points l r mid l2 r2 m2 : List (Pos P))
 
 end Model
 
+/-! ### 4. `bezier_approximate` and the stack loop as pure list functions -/
+
+section Loop
+variable {P : Type} [Scalar P]
+
+/-- what `bezier_approximate` pushes for a piece `Q`: its first control point, then the smoothed interior of the
+doubled polygon `leftM Q ++ (rightM Q).drop 1`. -/
+def flatPiece : List (Pos P) → List (Pos P)
+  | [] => []
+  | p0 :: rest => p0 :: approxTriples ((leftM (p0 :: rest) ++ (rightM (p0 :: rest)).drop 1).drop 1)
+
+/-- **`bezier_approximate` pushes `flatPiece points`** (structural; every arithmetic, any scratch contents). -/
+theorem bezierApproximate_spec (pts l r mid piece l' r' mid' : List (Pos P))
+    (h : bezierApproximate pts l r mid = .ok (piece, l', r', mid')) : piece = flatPiece pts ∧ pts ≠ [] := by
+  unfold bezierApproximate at h
+  simp only [] at h
+  obtain ⟨st, hsub, h⟩ := Outcome.bind_eq_ok h
+  obtain ⟨l1, r1, m1⟩ := st
+  simp only [] at h
+  obtain ⟨p0, hp0, h⟩ := Outcome.bind_eq_ok h
+  obtain ⟨ls, hls, h⟩ := Outcome.bind_eq_ok h
+  obtain ⟨rs, hrs, h⟩ := Outcome.bind_eq_ok h
+  obtain ⟨hne, _, _, _, _, _, hl, hr⟩ := bezierSubdivide_spec _ _ _ _ _ _ _ hsub
+  obtain ⟨_, els⟩ := sliceTo_ok hls
+  have ers : rs = (r1.take pts.length).drop 1 := by
+    unfold sliceFromTo at hrs
+    split at hrs
+    · cases hrs; rfl
+    · cases hrs
+  rw [getI_ok_iff] at hp0
+  subst els ers
+  rw [hl, hr] at h
+  cases h
+  refine ⟨?_, hne⟩
+  cases pts with
+  | nil => exact absurd rfl hne
+  | cons a t =>
+    simp only [List.getElem?_cons_zero, Option.some.injEq] at hp0
+    subst hp0
+    rfl
+
+/-- the `while let Some(parent) = to_flatten.pop()` loop of `approximate_bspline` on the stack alone: a flat piece is
+emitted, any other piece is replaced by its two halves (left on top). `none` = out of fuel. -/
+def flattenPure : Nat → List (List (Pos P)) → Option (List (Pos P))
+  | 0, [] => some []
+  | 0, _ :: _ => none
+  | _ + 1, [] => some []
+  | fuel + 1, Q :: stack =>
+    if bezierIsFlatEnough Q then (flattenPure fuel stack).map (flatPiece Q ++ ·)
+    else flattenPure fuel (leftM Q :: rightM Q :: stack)
+
+/-- **bridge lemma**: the model's loop (scratch buffers, recycled `free_bufs`, panics, fuel) computes `flattenPure`
+on its stack, whenever it succeeds and all polygons (stack and recycled buffers) have `p` points. -/
+theorem bsplineLoop_pure (p : Nat) : ∀ (fuel : Nat) (stack free : List (List (Pos P))) (bufs : BezierBuffers P)
+    (out : List (Pos P)) (b : BezierBuffers P),
+    (∀ q ∈ stack, q.length = p) → (∀ q ∈ free, q.length = p) →
+    bsplineLoop p fuel { stack := stack, free := free, bufs := bufs } = .ok (out, b) →
+    flattenPure fuel stack = some out
+  | 0, [], _, _, out, b, _, _, h => by
+    simp only [bsplineLoop, Outcome.pure_eq_ok] at h
+    cases h; rfl
+  | 0, _ :: _, _, _, out, b, _, _, h => by
+    simp only [bsplineLoop, Outcome.throw_eq] at h
+    cases h
+  | fuel + 1, [], _, _, out, b, _, _, h => by
+    simp only [bsplineLoop, Outcome.pure_eq_ok] at h
+    cases h; rfl
+  | fuel + 1, top :: stack, free, bufs, out, b, hst, hfr, h => by
+    have htop : top.length = p := hst top (by simp)
+    have hrest : ∀ q ∈ stack, q.length = p := fun q hq => hst q (by simp [hq])
+    simp only [bsplineLoop] at h
+    by_cases hflat : bezierIsFlatEnough top = true
+    · rw [if_pos hflat] at h
+      obtain ⟨r1, hap, h⟩ := Outcome.bind_eq_ok h
+      obtain ⟨piece, l, r, mid⟩ := r1
+      simp only [] at h
+      obtain ⟨r2, hloop, h⟩ := Outcome.bind_eq_ok h
+      obtain ⟨rest, bufs2⟩ := r2
+      obtain ⟨hpiece, _⟩ := bezierApproximate_spec _ _ _ _ _ _ _ _ hap
+      have ih := bsplineLoop_pure p fuel stack (top :: free) _ rest bufs2 hrest
+        (fun q hq => by
+          rcases List.mem_cons.mp hq with e | e
+          · rw [e]; exact htop
+          · exact hfr q e) hloop
+      cases h
+      simp only [flattenPure, hflat, if_true, ih, Option.map_some, hpiece]
+    · rw [if_neg hflat] at h
+      have main : ∀ (rc : List (Pos P)) (fr2 : List (List (Pos P))), rc.length = p →
+          (∀ q ∈ fr2, q.length = p) →
+          (do let x ← bezierSubdivide top bufs.leftChild rc bufs.midpoints
+              let parent ← copyFromSlice top (← sliceTo x.1 p)
+              bsplineLoop p fuel ⟨parent :: x.2.1 :: stack, fr2,
+                { bufs with leftChild := x.1, midpoints := x.2.2 }⟩) = .ok (out, b) →
+          flattenPure fuel (leftM top :: rightM top :: stack) = some out := by
+        intro rc fr2 hrc hfr2 h
+        obtain ⟨x, hsub, h⟩ := Outcome.bind_eq_ok h
+        obtain ⟨lc2, rc2, mid2⟩ := x
+        simp only [] at h
+        obtain ⟨sl, hsl, h⟩ := Outcome.bind_eq_ok h
+        obtain ⟨par, hpar, h⟩ := Outcome.bind_eq_ok h
+        obtain ⟨_, _, g2, _, _, _, hl, hr⟩ := bezierSubdivide_spec _ _ _ _ _ _ _ hsub
+        obtain ⟨_, esl⟩ := sliceTo_ok hsl
+        obtain ⟨_, epar⟩ := copyFromSlice_ok hpar
+        subst esl epar
+        rw [htop] at hl hr
+        rw [List.take_of_length_le (by omega)] at hr
+        rw [hl, hr] at h
+        exact bsplineLoop_pure p fuel _ fr2 _ out b
+          (fun q hq => by
+            rcases List.mem_cons.mp hq with e | e
+            · rw [e, length_leftM]; exact htop
+            · rcases List.mem_cons.mp e with e | e
+              · rw [e, length_rightM]; exact htop
+              · exact hrest q e) hfr2 h
+      have hflat' : bezierIsFlatEnough top = false := by
+        cases hb : bezierIsFlatEnough top
+        · rfl
+        · exact absurd hb hflat
+      simp only [flattenPure, hflat', Bool.false_eq_true, if_false]
+      cases free with
+      | nil => exact main _ [] (by simp) (by simp) h
+      | cons f fr => exact main f fr (hfr f (by simp)) (fun q hq => hfr q (by simp [hq])) h
+
+/-- **`approximate_bezier` = `flattenPure` on the one-polygon stack, then the last control point.** -/
+theorem approximateBezier_pure (fuel : Nat) (pts out : List (Pos P)) (b b' : BezierBuffers P)
+    (h : approximateBezier fuel pts b = .ok (out, b')) :
+    ∃ body last, flattenPure fuel [pts] = some body ∧ pts.getLast? = some last ∧ out = body ++ [last] := by
+  unfold approximateBezier approximateBspline at h
+  simp only [] at h
+  obtain ⟨r1, hloop, h⟩ := Outcome.bind_eq_ok h
+  obtain ⟨body, bufs⟩ := r1
+  simp only [] at h
+  obtain ⟨u, hu, h⟩ := Outcome.bind_eq_ok h
+  obtain ⟨last, hlast, h⟩ := Outcome.bind_eq_ok h
+  obtain ⟨_, eu⟩ := usub_ok hu
+  rw [getI_ok_iff, eu] at hlast
+  have hp := bsplineLoop_pure pts.length fuel [pts] [] _ body bufs (fun q hq => by simp at hq; rw [hq])
+    (fun q hq => by simp at hq) hloop
+  have hout : out = body ++ [last] := by
+    cases h; rfl
+  exact ⟨body, last, hp, by rw [List.getLast?_eq_getElem?]; exact hlast, hout⟩
+
+/-! ### 5. closure: every pushed vertex is built from control points by the two mixing rules -/
+
+/-- `C` is closed under the two operations the Bezier flattening applies to points: the midpoint `(a + b) / 2` and
+the smoothing `0.25 · (a + 2 b + c)`. -/
+structure MixClosed (C : Pos P → Prop) : Prop where
+  mid : ∀ a b, C a → C b → C (midP a b)
+  smooth : ∀ a b c, C a → C b → C c → C ((a + b.smul (2 : P) + c).smul (0.25 : P))
+
+theorem stepWith_all {α : Type} (f : α → α → α) (C : α → Prop) (hf : ∀ a b, C a → C b → C (f a b)) :
+    ∀ Q : List α, (∀ x ∈ Q, C x) → ∀ x ∈ stepWith f Q, C x
+  | [], _, x, hx => by simp at hx
+  | [_], _, x, hx => by simp at hx
+  | a :: b :: rest, h, x, hx => by
+    rw [stepWith_cons2] at hx
+    rcases List.mem_cons.mp hx with e | e
+    · rw [e]; exact hf a b (h a (by simp)) (h b (by simp))
+    · exact stepWith_all f C hf (b :: rest) (fun y hy => h y (List.mem_cons_of_mem _ hy)) x e
+
+theorem leftWith_all {α : Type} (f : α → α → α) (C : α → Prop) (hf : ∀ a b, C a → C b → C (f a b)) :
+    ∀ (n : Nat) (Q : List α), (∀ x ∈ Q, C x) → ∀ x ∈ leftWith f n Q, C x
+  | 0, _, _, x, hx => by simp [leftWith] at hx
+  | _ + 1, [], _, x, hx => by simp [leftWith] at hx
+  | n + 1, a :: rest, h, x, hx => by
+    rw [leftWith] at hx
+    rcases List.mem_cons.mp hx with e | e
+    · rw [e]; exact h a (by simp)
+    · exact leftWith_all f C hf n _ (stepWith_all f C hf _ h) x e
+
+theorem rightWith_all {α : Type} (f : α → α → α) (C : α → Prop) (hf : ∀ a b, C a → C b → C (f a b)) :
+    ∀ (n : Nat) (Q : List α), (∀ x ∈ Q, C x) → ∀ x ∈ rightWith f n Q, C x
+  | 0, _, _, x, hx => by simp [rightWith] at hx
+  | n + 1, Q, h, x, hx => by
+    cases hl : Q.getLast? with
+    | none => simp [rightWith, hl] at hx
+    | some z =>
+      rw [rightWith_succ f n Q z hl] at hx
+      rcases List.mem_append.mp hx with e | e
+      · exact rightWith_all f C hf n _ (stepWith_all f C hf _ h) x e
+      · simp at e; rw [e]; exact h z (List.mem_of_getLast? hl)
+
+theorem approxTriples_all (C : Pos P → Prop) (hC : MixClosed C) :
+    ∀ Q : List (Pos P), (∀ x ∈ Q, C x) → ∀ x ∈ approxTriples Q, C x
+  | [], _, x, hx => by simp [approxTriples] at hx
+  | [_], _, x, hx => by simp [approxTriples] at hx
+  | [_, _], _, x, hx => by simp [approxTriples] at hx
+  | a :: b :: c :: rest, h, x, hx => by
+    rw [approxTriples] at hx
+    rcases List.mem_cons.mp hx with e | e
+    · rw [e]; exact hC.smooth a b c (h a (by simp)) (h b (by simp)) (h c (by simp))
+    · exact approxTriples_all C hC (c :: rest)
+        (fun y hy => h y (List.mem_cons_of_mem _ (List.mem_cons_of_mem _ hy))) x e
+
+theorem flatPiece_all (C : Pos P → Prop) (hC : MixClosed C) (Q : List (Pos P)) (h : ∀ x ∈ Q, C x) :
+    ∀ x ∈ flatPiece Q, C x := by
+  cases Q with
+  | nil => intro x hx; simp [flatPiece] at hx
+  | cons p0 rest =>
+    intro x hx
+    rw [flatPiece] at hx
+    rcases List.mem_cons.mp hx with e | e
+    · rw [e]; exact h p0 (by simp)
+    · refine approxTriples_all C hC _ (fun y hy => ?_) x e
+      have hy' := List.mem_of_mem_drop hy
+      rcases List.mem_append.mp hy' with e1 | e1
+      · exact leftWith_all midP C hC.mid _ _ h y e1
+      · exact rightWith_all midP C hC.mid _ _ h y (List.mem_of_mem_drop e1)
+
+theorem flattenPure_all (C : Pos P → Prop) (hC : MixClosed C) : ∀ (fuel : Nat) (stack : List (List (Pos P)))
+    (out : List (Pos P)), (∀ q ∈ stack, ∀ x ∈ q, C x) → flattenPure fuel stack = some out → ∀ x ∈ out, C x
+  | 0, [], out, _, h => by simp only [flattenPure, Option.some.injEq] at h; subst h; simp
+  | 0, _ :: _, out, _, h => by simp [flattenPure] at h
+  | _ + 1, [], out, _, h => by simp only [flattenPure, Option.some.injEq] at h; subst h; simp
+  | fuel + 1, Q :: stack, out, hst, h => by
+    have hQ : ∀ x ∈ Q, C x := hst Q (by simp)
+    have hrest : ∀ q ∈ stack, ∀ x ∈ q, C x := fun q hq => hst q (by simp [hq])
+    rw [flattenPure] at h
+    split at h
+    · cases hr : flattenPure fuel stack with
+      | none => rw [hr] at h; simp at h
+      | some rest =>
+        rw [hr] at h
+        simp only [Option.map_some, Option.some.injEq] at h
+        subst h
+        intro x hx
+        rcases List.mem_append.mp hx with e | e
+        · exact flatPiece_all C hC Q hQ x e
+        · exact flattenPure_all C hC fuel stack rest hrest hr x e
+    · refine flattenPure_all C hC fuel _ out (fun q hq => ?_) h
+      rcases List.mem_cons.mp hq with e | e
+      · rw [e]; exact leftWith_all midP C hC.mid _ _ hQ
+      · rcases List.mem_cons.mp e with e | e
+        · rw [e]; exact rightWith_all midP C hC.mid _ _ hQ
+        · exact hrest q e
+
+end Loop
+
 end Rosu.Bez
